@@ -17,7 +17,9 @@ import time as _rtime
 
 from rv import core
 from rv.vclock import VClock, patched
-from rv.faults import make_exception
+from rv.faults import enable_unprintable, make_exception
+
+enable_unprintable()      # "whatever the user code raises" includes exceptions that cannot be turned into text
 
 PID = "C14"
 LEVEL = "fault_enumeration"
